@@ -39,13 +39,23 @@ def _watched_program():
     watchdog is the backstop for loops of any other shape)."""
     global _program_cls
     if _program_cls is None:
+        import inspect
         from cocoasm.program import Program
+        base = Program.__dict__.get("all_sizes_fixed")
+        if not inspect.isfunction(base) or list(inspect.signature(base).parameters) != ["self"]:
+            # the loop test is no longer an instance method of the shape the observer wraps (a refactoring may make
+            # it a classmethod, rename it, give it arguments): observe nothing, the watchdog alone decides
+            _program_cls = Program
+            return _program_cls
 
         class WatchedProgram(Program):
             def all_sizes_fixed(self):
                 done = Program.all_sizes_fixed(self)
                 if not done:
-                    snap = tuple((s.fixed_size, s.code_pkg.size, s.code_pkg.max_size) for s in self.statements)
+                    try:
+                        snap = tuple((s.fixed_size, s.code_pkg.size, s.code_pkg.max_size) for s in self.statements)
+                    except Exception:
+                        return done         # the statements no longer look the way the observer expects: observe nothing
                     if getattr(self, "_verif_snap", None) == snap:
                         # an implementation may legitimately need a pass without progress before it settles the
                         # remaining sizes; only a long run of identical states is taken as "never terminates"
